@@ -41,6 +41,7 @@ func RunCheck(o CheckOpts) int {
 			return 2
 		}
 	}
+	BaselineDir = filepath.Join(o.Verif, "baseline")
 	units := Units(p, o.Prop)
 	if o.Only != "" {
 		var f []*Unit
